@@ -233,6 +233,22 @@ class Contract(object):
         names = self.param_names(fn)
         vals = [frame.locals[n] for n in names]
         ctx.log.append(('call', self.target, vals))
+        if self.decl.get('host_effect'):
+            # a method that hands its arguments to host code (listeners): every closure among the arguments may be invoked
+            # by the host; up to 2 invocations with arbitrary arguments are simulated (bounded: flagged), then self is returned.
+            ctx.flags.add('host_effect:%s (escaping closures invoked at most twice)' % self.name)
+            clos = [v for v in _flatten_vals(vals) if isinstance(v, Closure)]
+            for cl in clos:
+                n = ctx.choose([True, True, True])
+                for _ in range(n):
+                    nargs = len(cl.node.args.args)
+                    hargs = [ctx.fresh_val('hostarg') for _ in range(nargs)]
+                    ctx.log.append({'kind': 'closure_call', 'closure': cl.name, 'args': hargs})
+                    it.call(cl, hargs)
+            c = ctx.choose([True, True])
+            if c == 1:
+                raise PyRaise('AnyException', ExcInst('AnyException'))
+            return vals[0]
         cur = self.world.current
         if cur is not None and self.name in (cur.decl.get('opaque_callees') or ()) and 'spec' in self.fns:
             if 'pre' in self.fns:
@@ -280,6 +296,15 @@ class Contract(object):
             ctx.assume(g, check=True)
             raise PyRaise(cls, err if err is not None else ExcInst(cls))
         raise OutOfReach('contract %s has neither spec nor post' % self.name)
+
+
+def _flatten_vals(vals):
+    for v in vals:
+        if isinstance(v, (list, tuple)):
+            for x in _flatten_vals(v):
+                yield x
+        else:
+            yield v
 
 
 def from_dom_value(v):
